@@ -411,6 +411,11 @@ def r5_registration(ctx, rule='C05.R5'):
         ctx.check(any(x[0] == 'field' and x[2] == 'deadline' for x in walk(t_time)) or 'deadline' in show(t_time), 'register-at-deadline',
                   'the timer entry is registered at the sleep\'s deadline', s.where(), show(t_time))
     wc = fp.calls_to(D + 'Driver::with_current')
+    REG = D + 'Driver::with_current'
+    if not wc and fp.calls_to(TQ + '::add'):
+        # the queue is fetched first and the entry registered by Sleep::poll itself (`Driver::current_queue().add(entry, deadline)`)
+        wc = fp.calls_to(TQ + '::add')
+        REG = TQ + '::add'
     lazy = None
     if not wc:
         # `me.handle.get_or_insert_with(|| <register>)`: the closure runs iff the handle is None, and its result is stored in the handle
@@ -429,7 +434,7 @@ def r5_registration(ctx, rule='C05.R5'):
         ctx.ok('the registration handle is stored in the sleep (result of get_or_insert_with)', lazy.where())
     elif ctx.floor('Driver::with_current in Sleep::poll', len(wc), 1):
         s = wc[0]
-        atoms = [a for _, a in fp.guard_atoms(s.b)]
+        atoms = [a for _, a in fp.guard_atoms(s.b, derived=True)]
         unsched = any((option_state(a) or ('', None))[0] == 'none' and any(x[0] == 'field' and x[2] == 'handle' for x in walk(option_state(a)[1])) for a in atoms)
         pend = any(a[0] == 'cmp' and a[1] == 'gt' for a in atoms)
         ctx.check(unsched and pend, 'register-iff-unscheduled', 'a pending sleep registers iff it holds no handle yet', s.where(), [show_atom(a) for a in atoms])
@@ -437,7 +442,7 @@ def r5_registration(ctx, rule='C05.R5'):
         stored = False
         for (b, i, st) in fp.writes_to_field('handle') + [(b, i, st) for b in sorted(fp.reachable()) for i, st in enumerate(fp.stmts(b)) if st['k'] == 'assign' and st['p']['pr'] and st['p']['pr'][-1]['k'] == 'deref']:
             v = fp.expr_rvalue(st['r'], b, i)
-            if v[0] == 'agg' and v[1].endswith('::Some') and any(x[0] == 'call' and x[1] == D + 'Driver::with_current' for x in walk(v)) and fp.dominates(s.b, b):
+            if v[0] == 'agg' and v[1].endswith('::Some') and any(x[0] == 'call' and x[1] == REG for x in walk(v)) and fp.dominates(s.b, b):
                 stored = True
         ctx.check(stored, 'handle-stored', 'the registration handle is stored in the sleep', s.where())
     res = fp.calls_to(TH + '::resolve')
